@@ -172,17 +172,22 @@ impl<S: BuildHasher + Clone + 'static> ExpirationMap<S> {
             return Ok(());
         }
 
-        let (old_bucket_num, new_bucket_num) =
-            (storage_bucket(old_exp_time), storage_bucket(new_exp_time));
+        let mut m = self.buckets.write();
 
-        if old_bucket_num == new_bucket_num {
+        // Un-file the key from its previous bucket. Only this key: other keys that expire in the
+        // same second must stay filed, and an entry that had no TTL was never filed anywhere.
+        if !old_exp_time.is_zero() {
+            if let Some(bucket) = m.get_mut(&storage_bucket(old_exp_time)) {
+                bucket.map.remove(&key);
+            }
+        }
+
+        // Items that don't expire don't need to be in the expiration map.
+        if new_exp_time.is_zero() {
             return Ok(());
         }
 
-        let mut m = self.buckets.write();
-
-        m.remove(&old_bucket_num);
-
+        let new_bucket_num = storage_bucket(new_exp_time);
         match m.get_mut(&new_bucket_num) {
             None => {
                 let mut bucket = Bucket::with_hasher(self.hasher.clone());
